@@ -87,33 +87,117 @@ fn shim_str_as_bytes<'a>(s: &'a str) -> (r: &'a [u8])
 '''
 
 UTF8 = r'''
-// ---- UTF-8 facts ---------------------------------------------------------------------------------------
-pub proof fn lemma_str_valid(s: &str)
-    ensures valid_utf8(s.spec_bytes()), s.spec_bytes().len() <= usize::MAX,
+// ---- UTF-8 facts, proved from vstd's definitions (vstd::utf8) ---------------------------------------------------
+pub proof fn lemma_first_scalar_shared(p: Seq<u8>, s: Seq<u8>)
+    requires p.len() > 0, valid_utf8(p), is_prefix(p, s), valid_utf8(s),
+    ensures length_of_first_scalar(s) == length_of_first_scalar(p), length_of_first_scalar(p) <= p.len(),
+            is_prefix(pop_first_scalar(p), pop_first_scalar(s)),
+            valid_utf8(pop_first_scalar(p)), valid_utf8(pop_first_scalar(s)),
 {
-    admit();
+    assert(p[0] == s.subrange(0, p.len() as int)[0]);
+    assert(s[0] == p[0]);
+    let l = length_of_first_scalar(p);
+    let p2 = pop_first_scalar(p);
+    let s2 = pop_first_scalar(s);
+    assert(p2 =~= s2.subrange(0, p2.len() as int)) by {
+        assert forall|k: int| 0 <= k < p2.len() implies #[trigger] p2[k] == s2.subrange(0, p2.len() as int)[k] by {
+            assert(p2[k] == p[k + l]);
+            assert(p[k + l] == s.subrange(0, p.len() as int)[k + l]);
+        }
+    }
 }
+
+pub proof fn lemma_valid_prefix_boundary(p: Seq<u8>, s: Seq<u8>)
+    requires valid_utf8(p), valid_utf8(s), is_prefix(p, s),
+    ensures is_char_boundary(s, p.len() as int),
+    decreases p.len(),
+{
+    if p.len() > 0 {
+        lemma_first_scalar_shared(p, s);
+        lemma_valid_prefix_boundary(pop_first_scalar(p), pop_first_scalar(s));
+    }
+}
+
 pub proof fn lemma_boundary_ends(b: Seq<u8>)
     requires valid_utf8(b),
     ensures is_char_boundary(b, 0), is_char_boundary(b, b.len() as int),
 {
-    admit();
+    is_char_boundary_start_end_of_seq(b);
 }
-// A1: a valid-UTF-8 prefix of a valid-UTF-8 string ends on a character boundary of that string.
-pub proof fn lemma_valid_prefix_boundary(p: Seq<u8>, s: Seq<u8>)
-    requires valid_utf8(p), valid_utf8(s), is_prefix(p, s),
-    ensures is_char_boundary(s, p.len() as int),
+// a suffix starting at a boundary is valid UTF-8
+pub proof fn lemma_valid_suffix(b: Seq<u8>, a: int)
+    requires valid_utf8(b), 0 <= a <= b.len(), is_char_boundary(b, a),
+    ensures valid_utf8(b.subrange(a, b.len() as int)),
+    decreases b.len(),
 {
-    admit();
+    if a == 0 {
+        assert(b.subrange(0, b.len() as int) =~= b);
+    } else {
+        let l = length_of_first_scalar(b);
+        let b2 = pop_first_scalar(b);
+        assert(is_char_boundary(b2, a - l));
+        assert(a - l >= 0);
+        lemma_valid_suffix(b2, a - l);
+        assert(b2.subrange(a - l, b2.len() as int) =~= b.subrange(a, b.len() as int));
+    }
 }
-// A2: boundaries of a boundary-delimited sub-slice are exactly the boundaries of the parent in that range,
-//     and the sub-slice is valid UTF-8.
+// a prefix ending at a boundary is valid UTF-8
+pub proof fn lemma_valid_prefix(b: Seq<u8>, e: int)
+    requires valid_utf8(b), 0 <= e <= b.len(), is_char_boundary(b, e),
+    ensures valid_utf8(b.subrange(0, e)),
+    decreases b.len(),
+{
+    let p = b.subrange(0, e);
+    if e > 0 {
+        let l = length_of_first_scalar(b);
+        let b2 = pop_first_scalar(b);
+        assert(is_char_boundary(b2, e - l));
+        assert(e - l >= 0);
+        lemma_valid_prefix(b2, e - l);
+        assert(p[0] == b[0]);
+        assert(valid_first_scalar(b));
+        assert(valid_first_scalar(p)) by {
+            assert(p.len() >= l);
+            assert forall|k: int| 0 <= k < l implies #[trigger] p[k] == b[k] by {}
+        }
+        assert(length_of_first_scalar(p) == l);
+        assert(pop_first_scalar(p) =~= b2.subrange(0, e - l));
+    }
+}
 pub proof fn lemma_sub_boundary(b: Seq<u8>, a: int, e: int, k: int)
     requires valid_utf8(b), 0 <= a <= e <= b.len(), is_char_boundary(b, a), is_char_boundary(b, e), 0 <= k <= e - a,
     ensures valid_utf8(b.subrange(a, e)), is_char_boundary(b.subrange(a, e), k) == is_char_boundary(b, a + k),
 {
-    admit();
+    let suf = b.subrange(a, b.len() as int);
+    lemma_valid_suffix(b, a);
+    // e - a is a boundary of the suffix
+    if e == b.len() { is_char_boundary_start_end_of_seq(suf); }
+    else {
+        is_char_boundary_iff_not_is_continuation_byte(b, e);
+        if e - a == 0 { } else { is_char_boundary_iff_not_is_continuation_byte(suf, e - a); assert(suf[e - a] == b[e]); }
+    }
+    lemma_valid_prefix(suf, e - a);
+    let sub = b.subrange(a, e);
+    assert(suf.subrange(0, e - a) =~= sub);
+    if k == 0 { } else if k == e - a { is_char_boundary_start_end_of_seq(sub); }
+    else {
+        is_char_boundary_iff_not_is_continuation_byte(sub, k);
+        is_char_boundary_iff_not_is_continuation_byte(b, a + k);
+        assert(sub[k] == b[a + k]);
+    }
 }
+// a `str` is valid UTF-8 (vstd: spec_bytes = encode_utf8 of its chars) ...
+pub proof fn lemma_str_valid(s: &str)
+    ensures valid_utf8(s.spec_bytes()), s.spec_bytes().len() <= usize::MAX,
+{
+    encode_utf8_valid_utf8(s@);
+    axiom_str_len_fits_usize(s);
+}
+// ... and its length fits in usize (Rust invariant of slices; the only UTF-8-related fact left unproved)
+#[verifier::external_body]
+pub proof fn axiom_str_len_fits_usize(s: &str)
+    ensures s.spec_bytes().len() <= usize::MAX,
+{}
 '''
 
 
